@@ -409,8 +409,8 @@ def run(ctx: Any) -> None:
                 "Context; states = distinct constructed values (harness structural key, floats by bits), transitions = constructor "
                 "applications, executions = print+parse round trips; non-trivial = distinct values other than small integers, "
                 "printable-ASCII strings and finite floats that survive 6 significant digits")
-    ctx.assumptions = ["a value is what the public constructor returns (constructor normalisation, e.g. NaN payloads dropped by "
-                       "f16 packing, is not part of this property)",
+    ctx.assumptions = ["the constructor must keep the integer / float / dense element payload it is given (expected payload computed from the "
+                       "desc alone), compared modulo NaN quieting and, for f16, modulo the NaN payload (CPython half-float packing)",
                        "f80/f128 have no packing format in xDSL and are recorded as outcomes only",
                        "harness float decoding (mc/attrgen.ieee_to_double_bits) is exact"]
 
